@@ -135,6 +135,10 @@ func (h *handler) ServeHTTP(rw http.ResponseWriter, req *http.Request) {
 			resp.Key = usage.Key
 			resp.Err = usage.Err.Error()
 		}
+		if resp.Err == "" {
+			// an empty error text would be read as success by the client
+			resp.Err = "unknown error"
+		}
 	}
 	// marshal response
 	blob, err := json.Marshal(resp)
